@@ -74,4 +74,11 @@ PROPS = {
     "C09": shr([("sh-acquire", 300, 6000), ("sh-multi", 200, 4000), ("sh-general", 100, 2000)],
                r"^(value:.*|unexpected:.*|missing:.*|not-enabled:.*|sample:capacity|unknown:.*|hang)$",
                "Proof (partial): faults are ordinary labels, so all invariants of C04/C06/C07 hold under any fault sequence; a lease call of any outcome returns the loop to its top, where a request is enabled whenever demand exceeds the count; a failed call changes nothing; the store grants as soon as the previous lease ran out (dead peers free their partitions by themselves). The numeric time bound involves the loop's random sleeps, which the model abstracts; it is decided on recorded histories by the monitor."),
+    "C18": dict(engine="lease", test="TestLease", replay_mode="lreplay", needs_azblob=True,
+                families=[("lease", 1, 1)], cone=r".*",
+                assumptions=["the SDK's mapping from HTTP responses to azblob.StorageError is exercised (sdk-level cases) but not verified",
+                             "the list of service codes is read from the pinned SDK source in the module cache on every run"],
+                level_text="Proof: the classification at the three call sites (lease reported iff the acquire succeeded; failed vs error event; container-already-exists and blob-already-exists / lease-id-missing as the only benign codes), and by induction over the partition count and for every outcome function: blobs 0..n-1 attempted in order, the event of each blob determined by its own upload, V1 stops at and returns the first other error, V2 raises an error event and continues. Tie to the code: every service code of the SDK plus non-storage errors at each call site, every position of runs up to n=3 (thorough: 4) over a 6-letter alphabet, random runs up to n=40, against in-package fakes AND through the real SDK client on an in-process HTTP sender (blob names, If-None-Match, lease duration and id), compared with the extracted model case by case.",
+                level_note="Trusted: Coq kernel; extraction and replay/lease.ml; the harness fakes. Modelled, not verified: the SDK client and the Azure service. No axioms.",
+                technique="machine-checked proof in Coq 8.16 (pure functional model, induction over the partition count) + exhaustive differential comparison of the real lease managers with the extracted model over all SDK service codes"),
 }
